@@ -38,18 +38,22 @@ let run () = iter_lines (fun line ->
       let tcs = List.map (fun ((_, _, t) as x) ->
           { expected = (if t.kind = 'E' then Some (z_of_int t.code) else None); t_skip = z_of_int (skip_of x);
             per_timeout = (if t.kind = 'T' then Some (n_of_int 400) else None); empty_ok = true }) all in
-      let rs = List.map (fun ((_, _, t) as x) ->
-          let st = (match t.kind with
-              | 'P' | 'O' -> Code Z0 | 'C' | 'E' -> Code (z_of_int t.code) | 'S' -> Code (z_of_int (if m.cram then 80 else skip_of x))
+      let total_ms = (match cli_timeout with Some t -> t | None -> (match m.total with Some t -> t | None -> int_of_n default_document_timeout_ms)) in
+      (* time that has certainly passed before each test case starts: one second for every `wait: 1s` so far (this one included) *)
+      let elapsed = (let rec f acc = function [] -> [] | (_, _, t) :: r -> let acc' = (if t.kind = 'w' then acc + 1000 else acc) in acc' :: f acc' r in
+                     let l = f 0 all in List.mapi (fun i e -> if (let (_, _, t) = List.nth all i in t.kind = 'w') then e - 1000 else e) l) in
+      let rs = List.map2 (fun ((_, _, t) as x) el ->
+          let st = (if (not m.cram) && total_ms > 0 && el >= total_ms then TimedOut else match t.kind with
+              | 'P' | 'O' | 'w' -> Code Z0 | 'C' | 'E' -> Code (z_of_int t.code) | 'S' -> Code (z_of_int (if m.cram then 80 else skip_of x))
               | 'Q' -> if m.cram then ESkipped else Code (z_of_int (skip_of x))
               | 'T' | 'G' -> TimedOut | 'D' -> EDetached | 'K' -> Unknown | 'X' -> Code (z_of_int 3) | _ -> failwith "kind") in
-          { status = st; out_ok = (t.kind <> 'O') }) all in
+          { status = st; out_ok = (t.kind <> 'O') }) all elapsed in
       let total = (match cli_timeout with Some t -> Some (n_of_int t) | None ->
                      (match m.total with Some t -> Some (n_of_int t) | None -> Some default_document_timeout_ms)) in
       (* Cram: the first test case that leaves the script early with a plain `exit 3` *)
       let early = (let rec f i = function [] -> None | (_, _, t) :: r -> if t.kind = 'X' then Some (nat_of_int i) else f (i + 1) r in f 0 all) in
       let e = if m.cram then exec_script2 default_skip_document_code rs early
-              else exec_timed tcs rs total (List.map (fun _ -> N0) tcs) in
+              else exec_timed tcs rs total (List.map n_of_int elapsed) in
       (m, all, tcs, rs, e)) mains in
     let model_docs = List.map (fun (_, _, tcs, _, e) -> (tcs, e)) plan in
     let mexit = int_of_z (run_exit model_docs) in
@@ -74,7 +78,7 @@ let run () = iter_lines (fun line ->
     let exp_marks = marks_until plan in
     let has k = List.exists (fun d -> List.exists (fun t -> t.kind = k) d.tests) docs in
     bump (Printf.sprintf "exit:%d" mexit); bump (Printf.sprintf "docs:%d" (List.length mains));
-    List.iter (fun k -> if has k then bump (Printf.sprintf "has:%c" k)) ['P'; 'O'; 'C'; 'E'; 'S'; 'Q'; 'T'; 'G'; 'D'; 'K'; 'X'];
+    List.iter (fun k -> if has k then bump (Printf.sprintf "has:%c" k)) ['P'; 'O'; 'C'; 'E'; 'S'; 'Q'; 'T'; 'G'; 'D'; 'K'; 'X'; 'w'];
     if pres <> [] then bump "has:prepend"; if apps <> [] then bump "has:append";
     if List.exists (fun d -> d.cram) mains then bump "has:cram";
     note_distinct docs_s (List.length (List.concat_map (fun d -> d.tests) docs) >= 2); sample line;
@@ -85,7 +89,13 @@ let run () = iter_lines (fun line ->
     if ientries <> exp_entries then report "DIFF:results" ("model=" ^ String.concat "," exp_entries) line;
     (* detached commands write their marker asynchronously: compare marks without them *)
     let is_detached_mark mk = List.exists (fun d -> List.exists (fun (dd, i, t) -> t.kind = 'D' && Printf.sprintf "D%dT%d" dd.idx i = mk) (with_ids d)) docs in
-    let strip l = List.filter (fun mk -> not (is_detached_mark mk)) l in
+    (* a test case that starts with no time left is cut off at once: whether its shell got as far as its marker is not determined *)
+    let no_time_marks = List.concat_map (fun d ->
+        if d.cram || d.role <> 'm' then [] else
+          let after_wait = ref false in
+          List.concat (List.mapi (fun i t -> let r = (if !after_wait then [Printf.sprintf "D%dT%d" d.idx i] else []) in
+                                    if t.kind = 'w' then after_wait := true; r) d.tests)) docs in
+    let strip l = List.filter (fun mk -> not (is_detached_mark mk) && not (List.mem mk no_time_marks)) l in
     if strip imarks <> strip exp_marks then report "DIFF:marks" ("model=" ^ String.concat "," exp_marks) line;
     if json <> "json=1" then report "SPEC:C19" "json renderer output is not well-formed JSON" line;
     if leftover <> "leftover=0" then report "SPEC:C18" ("directories left in TMPDIR after the run: " ^ leftover) line;
